@@ -89,6 +89,12 @@ Definition check_scipy_src (c : sinst * list (option U) * list rop) : bool :=
   | (s, shape, t) => runs_prog gen_scipy s shape t
   end.
 
+(* simulate: case = (instance, trace): every recorded operation stays within the footprint generated from the source *)
+Definition check_simulate_src (c : sinst * list rop) : bool :=
+  match c with
+  | (s, t) => names_known s (map SAtom gen_simulate_foot) && decodes t && within U (inst_of s) gen_simulate_foot (decoded t)
+  end.
+
 (* self-test on hand-written traces (3 variables: 0 = t, 1 = parameter, 2 = model; conventions of checkers_selftest) *)
 Definition demo_sinst (n : nat) (keys : list (string * list (list nat))) (work : list (string * list (list rop))) : sinst :=
   SInst [("t"%string, 0); ("model"%string, 2)] [] [] [1] [] [1] n keys [] work [].
@@ -113,5 +119,10 @@ Example src_checkers_selftest :
   /\ check_scipy_src (demo_sinst 1 [] [("patient"%string, [[(0,1,2)]])], [None; Some tt; None],
                       [(7,0,0); (7,0,1); (7,0,2); (0,0,1); (3,0,0); (1,1,0); (0,1,2)]) = true
   /\ check_scipy_src (demo_sinst 1 [] [("patient"%string, [[(0,1,2)]])], [None; Some tt; None],
-                      [(7,0,0); (7,0,1); (7,0,2); (0,0,1); (3,0,0); (1,0,0); (0,1,2)]) = false.
+                      [(7,0,0); (7,0,1); (7,0,2); (0,0,1); (3,0,0); (1,0,0); (0,1,2)]) = false
+  /\ check_simulate_src (SInst [("mixing_matrix"%string, 2)] [] [] [1] [] [] 0 [] [] [] [],
+                         [(7,0,0); (7,0,1); (7,0,2); (0,0,1); (6,0,1); (0,0,2); (3,0,0); (1,1,0); (0,1,2)]) = true
+  (* a read of a variable outside the footprint, an assignment on the model's state *)
+  /\ check_simulate_src (SInst [("mixing_matrix"%string, 2)] [] [] [1] [] [] 0 [] [] [] [], [(0,0,0)]) = false
+  /\ check_simulate_src (SInst [("mixing_matrix"%string, 2)] [] [] [1] [] [] 0 [] [] [] [], [(1,0,1)]) = false.
 Proof. vm_compute. repeat split; reflexivity. Qed.
